@@ -6,6 +6,7 @@ pub mod c15;
 pub mod c16;
 pub mod c17;
 pub mod c18;
+pub mod c20;
 pub mod common;
 pub mod sc;
 
@@ -20,6 +21,7 @@ pub fn by_id(id: &str) -> Option<&'static dyn Property> {
         "C16" => Some(&c16::C16),
         "C17" => Some(&c17::C17),
         "C18" => Some(&c18::C18),
+        "C20" => Some(&c20::C20),
         "C01" => Some(&sc::C01),
         "C02" => Some(&sc::C02),
         "C03" => Some(&sc::C03),
